@@ -729,7 +729,8 @@ def _canon_same(x, path):
             items = [[_canon_same(k, path), _canon_same(v, path)] for k, v in x.items()]
         finally:
             path.pop()
-        return ["dict" if t is dict else qn(t), _sorted_c(items)]
+        # (two OrderedDicts are equal only in the same order)
+        return ["dict" if t is dict else qn(t), items if isinstance(x, collections.OrderedDict) else _sorted_c(items)]
     if isinstance(x, (list, tuple, collections.deque)) and not hasattr(t, "_fields"):
         if id(x) in path:
             return ["cycle"]
